@@ -13,7 +13,7 @@ CFG = dict(
                "concurrent producers with the consumer): a pop removes exactly what it returns and nothing when it returns nil (multiset conservation "
                "over every history), returns only admitted messages, returns one whenever an admissible one is queued (pop, TryPop, blocking Pop), "
                "and the result is maximal for any total preorder; the standard prioritizer is proved to be a total preorder with duty-start > timeout > "
-               "rest and current-height consensus before other heights. The original pop is kept as a definition with two refutation witnesses "
+               "rest and current-height consensus before other heights; the remaining clauses of the order are proved one by one for every prioritizer state (current height/slot before every other for consensus AND partial-signature traffic, later before earlier, consensus > pre > post while an instance runs and pre > post > consensus otherwise, current round > later > earlier rounds, proposal > prepare > commit > round-change, decided first on other heights). The original pop is kept as a definition with two refutation witnesses "
                "(the repaired defect). Tie: differential run of the real queue against the model + implementation-side oracle.",
     level_note="Trusted: Lean kernel (propext/Classical.choice/Quot.sound only), harness (message construction, filters copied from ConsumeQueue, "
                "forced lastRead), Go channels as atomic FIFO, one consumer goroutine (as the queue documents).",
